@@ -246,6 +246,72 @@ def check_c09(v):
     return f
 
 
+def check_rest(v, prop):
+    """C18 / C19: the real server binary (built from the current tree) on a loopback port, driven by the
+    harness; every exchange validated by TLC against RestTrace (endpoint mapping composed with Lib)."""
+    def f(r):
+        v.model_check(r, "rest", "Rest.tla", "Rest_MC.cfg", workers=4)
+        v.model_check(r, "restneg", "Rest.tla", "Rest_Neg.cfg", workers=2, expect_violation="is violated")
+        binp = v.build_harness(r)
+        srv = os.path.join(r.dir, "srv")
+        rc, out = v.run(["go", "build", "-o", srv, "./cmd"], cwd=os.path.join(v.REPO, "internal", "app"), env=v.repo_go_env(), timeout=900)
+        if rc != 0:
+            raise v.Inconclusive("the REST server does not build:\n" + out[-2000:])
+
+        def drive(outdir, only=None):
+            os.makedirs(outdir, exist_ok=True)
+            cmd = [binp, "rest", "-prop", prop, "-tier", r.tier, "-seed", str(r.seed), "-server", srv, "-out", outdir]
+            if only:
+                cmd += ["-only", only]
+            rc, out = v.run(cmd, cwd=r.dir, env=v.go_env(), timeout=3000)
+            if rc != 0:
+                raise v.Inconclusive("REST driver failed (rc=%s):\n%s" % (rc, out[-2000:]))
+            return json.load(open(os.path.join(outdir, "gen.json")))
+        g = drive(os.path.join(r.dir, "rt"))
+        r.samples = [{"scn": s["scn"], "method": s["method"], "path": s["path"], "cls": s["cls"], "request_body": (s.get("r") or {}).get("body", "")[:300],
+                      "status": s["resp"]["status"], "ms": s["resp"]["ms"]} for s in g.get("samples", [])]
+        bad, nbad = v.validate_traces(r, g["files"], "RestTrace.tla", "RestTrace.cfg")
+        r.nontrivial = sum(r.classes.values())
+        r.extra["server_alive_at_end"] = g.get("alive_at_end")
+        if nbad.get("INC", 0):
+            raise v.Inconclusive("inconclusive exchanges: %s" % [b for b in bad if b["p"] == "INC"][:3])
+        for p, n in nbad.items():
+            if n and p != prop:
+                r.other_props[p] = n
+        mine = [b for b in bad if b["p"] == prop]
+        seen, reported = set(), 0
+        cache = {}
+        for b in mine:
+            if b["file"] not in cache:
+                cache[b["file"]] = v.read_events(b["file"])
+            ev = cache[b["file"]][b["id"]]
+            if ev["scn"] in seen or reported >= 5:
+                continue
+            seen.add(ev["scn"])
+            k = v.match_known(prop, ev, b["r"])
+            if k is not None:
+                if k["what"] not in [x["what"] for x in r.known]:
+                    r.known.append(k)
+                continue
+            # fresh server process, same seed, only this exchange kept
+            g2 = drive(os.path.join(r.dir, "repro-%d" % reported), only=ev["scn"])
+            again = False
+            for i2, f2 in enumerate(g2["files"]):
+                rep, _, _ = v.validate_shard(r, 800 + reported * 10 + i2, f2, "RestTrace.tla", "RestTrace.cfg")
+                again = again or any(x["p"] == prop for x in rep["bad"])
+            if not again:
+                raise v.Inconclusive("a rejected exchange did not reproduce with a fresh server: %s %s" % (ev["scn"], b["r"]))
+            d = os.path.join(v.ROOT, "replays", prop)
+            os.makedirs(d, exist_ok=True)
+            path = os.path.join(d, hashlib.sha1((ev["scn"] + b["r"]).encode()).hexdigest()[:12] + ".json")
+            json.dump({"property": prop, "tier": r.tier, "seed": r.seed, "scn": [ev["scn"]], "reason": b["r"],
+                       "exchange": {"method": ev["method"], "path": ev["path"], "request": (ev.get("r") or {}), "status": ev["resp"]["status"],
+                                    "ms": ev["resp"]["ms"]}}, open(path, "w"), indent=1)
+            r.violations.append({"reason": b["r"], "replay": path, "event": {"scn": ev["scn"], "path": ev["path"], "request": str(ev.get("r"))[:400], "status": ev["resp"]["status"]}})
+            reported += 1
+    return f
+
+
 def install(v):
     C = v.CHECKS
     R = v.RULES
@@ -262,6 +328,10 @@ def install(v):
     C["C14"] = v.chk_lib(per_shard=3000)
     C["C15"] = v.chk_lib(per_shard=600)
 
+    C["C18"] = check_rest(v, "C18")
+    C["C19"] = check_rest(v, "C19")
+    v.REPLAYS["C18"] = lambda r, rp: (check_rest(v, "C18")(r), bool(r.violations))[1]
+    v.REPLAYS["C19"] = lambda r, rp: (check_rest(v, "C19")(r), bool(r.violations))[1]
     C["C09"] = check_c09(v)
     v.REPLAYS["C09"] = lambda r, rp: (check_c09(v)(r), bool(r.violations))[1]
     C["C11"] = check_c11(v)
